@@ -300,4 +300,12 @@ def run(P, R, tier):
     # a reload that is not applied, or a removal that is not reported, never reaches the modules' hooks
     c15.load_merges(P, Remap(R, {'C15.MPT.3': 'C17.MPT.4', 'C15.WMC.1': 'C17.MPT.4'}))
     c15.removal_reports_change(P, Remap(R, {'C15.MPT.4': 'C17.GRD.3'}))
+    # a module's section survives being dropped from the file only because registration pinned it: the hook lives on the node
+    c15.registration(P, Remap(R, {'C15.MPT.2': 'C17.MPT.7'}))
+    # an added or removed entry marks its section modified whatever its neighbours in sort order do
+    c15.merge_details(P, R, 'C17.MPT.8')
+    # a slot emptied by a reload must not hide the services configured behind it
+    from . import c06
+    xq, b = c06.builder(P)
+    c06.fanout_complete(P, R, b, 'C17.MPT.9')
     return EXPLANATION, ASSUMPTIONS
